@@ -1,5 +1,5 @@
 (* extraction of the C03 model (see ExtractC14.v for the conventions) *)
-From AV Require Import Base.Prelude Gen.CacheSites Model.Cache.
+From AV Require Import Base.Prelude Gen.CacheSites Model.Cache Model.GlyfTableMemo.
 Require Import ExtrOcamlBasic.
 Extraction Language OCaml.
 Definition z_add := Z.add.
@@ -9,4 +9,5 @@ Definition z_div_eucl := Z.div_eucl.
 Definition z_ltb := Z.ltb.
 Definition z_eqb := Z.eqb.
 Extraction "../ocaml/c03/model.ml" z_add z_mul z_opp z_div_eucl z_ltb z_eqb
-  l_run l_spec new_lcache g_run g_spec_run font_new DEFAULT_IMAGE_FILTER.
+  l_run l_spec new_lcache g_run g_spec_run font_new DEFAULT_IMAGE_FILTER
+  t_run t_spec.
